@@ -235,3 +235,149 @@ Proof.
     split; [exact K|]. split; [intros H; apply NK; apply KC; exact H|]. split; [rewrite L; exact CB|]. split; congruence.
   - exact CT.
 Qed.
+
+(* ---------------------------------------------------------------------------------------------- *)
+(* Part 2: where Err(ConnectionAborted) of a reading handler comes from                            *)
+(* ---------------------------------------------------------------------------------------------- *)
+Section Handler.
+Variable maxc : N.
+
+(* what every operation of a reading handler keeps on a transport without write faults *)
+Definition hinv (r : rstate) (w : world) : Prop := rinv r /\ world_ok w /\ no_fault (wscript w).
+
+Lemma hinv_next r w r' w' : hinv r w -> rinv r' -> wstep w w' -> hinv r' w'.
+Proof. intros (_ & Wok & Hnf) Hr S. split; [exact Hr|]. split; [apply (ws_ok _ _ S Wok)|apply (ws_nf _ _ S Hnf)]. Qed.
+
+Lemma hinv_ev r w e : hinv r w -> hinv r (w_ev w e).
+Proof. intros H. apply (hinv_next r w); [exact H|apply H|apply wstep_ev]. Qed.
+
+Lemma await_input_hinv dest r w x r' w' : hinv r w -> await_input maxc (io_fuel w 0) dest r w = Ok (x, r') w' -> hinv r' w'.
+Proof.
+  intros H E. pose proof H as ((G & A) & Wok & Hnf).
+  pose proof (await_input_io idn maxc dest r w G Wok) as H1. rewrite E in H1.
+  pose proof (await_input_reads maxc (io_fuel w 0) dest r w (rinv_pinv r (conj G A)) (world_ok_remaining w Wok)) as H2.
+  rewrite E in H2. cbn [ai_post] in H2. destruct H2 as (dl & AC & _).
+  assert (X : rgood r' /\ wstep w w').
+  { destruct x as [[n b]|k]; [|destruct H1 as [H1 _]]; destruct H1 as (Y1 & Y2 & _); split; assumption. }
+  destruct X as [G' S]. apply (hinv_next r w); [exact H| |exact S]. split; [exact G'|apply (ac_inv _ _ _ _ _ _ _ AC)].
+Qed.
+
+(* on a transport without write faults the awaited read reports the kind ConnectionAborted only for the parser's
+   AbortRequest: the parser stands at the abort header and Request.aborted is set *)
+Lemma await_input_aborted fuel dest r w r' w' : pinv (rsp r) -> bytes_ok (remaining w) -> no_fault (wscript w) ->
+  await_input maxc fuel dest r w = Ok (inr EK_Aborted, r') w' -> err_at (abs (rsp r')) EAbortRequest /\ raborted r' = true.
+Proof.
+  intros Hinv Hrem Hnf E. pose proof (await_input_reads maxc fuel dest r w Hinv Hrem) as H. rewrite E in H.
+  cbn [ai_post] in H. destruct H as (dl & _ & C & _). cbn [pi_case] in C.
+  destruct C as [(e & C1 & C2 & _ & _ & _ & C6)|[(_ & C1 & _)|(_ & _ & _ & C4)]].
+  - symmetry in C1. apply perr_kind_aborted in C1. subst e. split; [exact C2|]. rewrite C6. apply orb_true_r.
+  - discriminate C1.
+  - exfalso. apply (no_fault_not_fault EK_Aborted _ Hnf). apply C4. discriminate.
+Qed.
+
+(* an awaited read that returns an error went through the reply flush: on a transport without write faults the
+   request's lock is released — whatever the lock was before (a read polled once and dropped may have left it held) *)
+Lemma await_input_err_unlocked fuel dest r w k r' w' : lgood (rsp r) -> world_ok w -> no_fault (wscript w) ->
+  await_input maxc fuel dest r w = Ok (inr k, r') w' -> rlock r' = false.
+Proof.
+  intros G Wok Hnf E.
+  assert (Hpre : lk_pre dest r).
+  { right. destruct fuel as [|f]; [discriminate E|]. cbn [await_input] in E. unfold poll_input in E. cbv zeta in E.
+    destruct dest as [[|pc]|]; destruct (stream_buffer (rsp r)) as [|x sb] eqn:Esb; cbv beta iota in E; try discriminate E;
+      (split; [reflexivity|discriminate]). }
+  pose proof (await_input_lock idn maxc fuel dest r w G Wok Hpre) as H. rewrite E in H.
+  destruct H as (_ & _ & [H|H]); [exact H|contradiction].
+Qed.
+
+Lemma read_all_hinv : forall fuel acc r w k acc' r' w', hinv r w -> read_all maxc fuel acc r w = Ok (k, acc', r') w' -> hinv r' w'.
+Proof.
+  induction fuel as [|f IH]; intros acc r w k acc' r' w' H E; [discriminate E|]. cbn [read_all] in E.
+  destruct (await_input maxc (io_fuel w 0) (Some 64) r w) as [[[[n b]|e] r1] w1|o w1] eqn:EA; [| |discriminate E].
+  - pose proof (await_input_hinv _ _ _ _ _ _ H EA) as H1.
+    destruct (n =? 0); [injection E as _ _ <- <-; exact H1|]. apply (IH _ _ _ _ _ _ _ H1 E).
+  - injection E as _ _ <- <-. apply (await_input_hinv _ _ _ _ _ _ H EA).
+Qed.
+
+Lemma do_writeable_hinv r w e r' w' : hinv r w -> do_writeable maxc r w = Ok (e, r') w' -> hinv r' w'.
+Proof.
+  intros H E. pose proof H as ((G & A) & Wok & Hnf).
+  pose proof (do_writeable_ok idn maxc r w G Wok) as H1. rewrite E in H1. destruct H1 as ((G' & S & _) & _).
+  apply (hinv_next r w); [exact H| |exact S]. split; [exact G'|].
+  destruct (do_writeable_gate maxc r w e r' w' (rinv_pinv r (conj G A)) (world_ok_remaining w Wok) E) as [D1 D2].
+  destruct (rwriteable r) eqn:Ewr.
+  - destruct (D1 eq_refl) as (_ & -> & _). exact A.
+  - specialize (D2 eq_refl). cbv zeta in D2. destruct D2 as (p1 & _ & _ & _ & _ & AC & _). apply (ac_inv _ _ _ _ _ _ _ AC).
+Qed.
+
+Lemma set_stream_hinv r w s p' : hinv r w -> set_stream (rsp r) (Some s) = SetOk p' ->
+  hinv (mkR p' (rwriteable r) (rlock r) (raborted r)) w.
+Proof.
+  intros H E. pose proof H as ((G & A) & Wok & Hnf).
+  pose proof (set_stream_ok_accepted _ _ _ E) as Acc.
+  destruct (set_stream_views (rsp r) (Some s) p' (proj1 G) (ConnTotal.accepts_input _ _ _ Acc) E) as (V1 & V2 & V3 & _).
+  destruct (set_stream_step maxc _ _ _ (rinv_pinv r (conj G A)) E) as (I1 & _).
+  split; [|split; assumption]. split; [|apply I1].
+  split; [exact V1|]. pose proof (proj2 G) as W. unfold wr_inv, wr_inv_at in *. cbn [rsp rwriteable]. rewrite V2, V3.
+  destruct (accepts_some_inv _ _ _ Acc) as [J1 J2].
+  destruct (rwriteable r); [apply J1; exact W|]. destruct W as (x & Ex & Hx). exists s. split; [reflexivity|]. apply (J2 x Ex Hx).
+Qed.
+
+Lemma consume_hinv r w c : hinv r w -> hinv (mkR (consume_stream (rsp r) c) (rwriteable r) (rlock r) (raborted r)) w.
+Proof.
+  intros ((G & A) & Wok & Hnf). split; [|split; assumption].
+  destruct (consume_stream_views (rsp r) c (proj1 (proj1 G))) as (V1 & V2 & V3 & _).
+  split; [apply (rgood_transfer r); try assumption; try reflexivity; rewrite V2; apply G|].
+  cbn [rsp]. rewrite (consume_stream_abs _ _ (proj1 (proj1 G))). apply consume_stream_inv. exact A.
+Qed.
+
+Lemma poll_input_hinv dest r w p r' w' : hinv r w ->
+  poll_input maxc (io_fuel w (len (buffer (rsp r)))) dest r w = (p, r', w') -> hinv r' w'.
+Proof.
+  intros H E. pose proof H as (Hr & Wok & Hnf).
+  assert (Hf : (length (wscript w) + nb w + 2 <= io_fuel w (len (buffer (rsp r))))%nat) by (rewrite io_fuel_eq; lia).
+  destruct (poll_input_rinv maxc _ dest r w p r' w' Hr Wok Hf E) as [Hr' _].
+  pose proof (poll_input_ok idn maxc _ dest r w (proj1 Hr) Wok Hf) as PI. rewrite E in PI.
+  assert (S : wstep w w').
+  { destruct p as [[[n b]|k]| |]; [|destruct PI as [PI _]..]; apply PI. }
+  apply (hinv_next r w); assumption.
+Qed.
+
+Lemma run_handler_abort : forall f script r w r1 w1, no_fab script -> hinv r w ->
+  run_handler maxc f script r w = Ok (inr EK_Aborted, r1) w1 ->
+  hinv r1 w1 /\ rlock r1 = false /\ err_at (abs (rsp r1)) EAbortRequest /\ raborted r1 = true.
+Proof.
+  induction f as [|f IH]; intros script r w r1 w1 Hs H E; [discriminate E|].
+  destruct Hs as [|n rest Hs|rest Hs|k rest Hs|s rest Hs|rest Hs|d c rest|k rest Hk|n rest Hs|n rest Hs]; cbn [run_handler] in E.
+  - discriminate E.
+  - destruct (await_input maxc (io_fuel w 0) (Some n) r w) as [[[[c b]|k] r'] w'|o w'] eqn:EA; [| |discriminate E];
+      (apply IH in E; [exact E|exact Hs|]); do 2 apply hinv_ev; apply (await_input_hinv _ _ _ _ _ _ H EA).
+  - destruct (read_all maxc _ [] r w) as [[[k acc] r'] w'|o w'] eqn:ER; [|discriminate E].
+    apply IH in E; [exact E|exact Hs|]. do 2 apply hinv_ev. apply (read_all_hinv _ _ _ _ _ _ _ _ H ER).
+  - destruct (await_input maxc (io_fuel w 0) None r w) as [[[x|e] r'] w'|o w'] eqn:EA; [| |discriminate E]; cbv zeta in E.
+    + apply IH in E; [exact E|exact Hs|]. do 2 apply hinv_ev. apply consume_hinv. apply (await_input_hinv _ _ _ _ _ _ H EA).
+    + apply IH in E; [exact E|exact Hs|]. do 2 apply hinv_ev. apply (await_input_hinv _ _ _ _ _ _ H EA).
+  - destruct (set_stream (rsp r) (Some s)) as [p'| |] eqn:ES; [|discriminate E|discriminate E].
+    apply IH in E; [exact E|exact Hs|]. apply hinv_ev. apply (set_stream_hinv _ _ _ _ H ES).
+  - destruct (do_writeable maxc r w) as [[e r'] w'|o w'] eqn:ED; [|discriminate E].
+    apply IH in E; [exact E|exact Hs|]. apply hinv_ev. apply (do_writeable_hinv _ _ _ _ _ H ED).
+  - discriminate E.
+  - exfalso. injection E as E _ _. destruct ((2 <=? k) && (k <=? 7)); [apply Hk; exact E|discriminate E].
+  - destruct (await_input maxc (io_fuel w 0) (Some n) r w) as [[[[c b]|k] r'] w'|o w'] eqn:EA; [| |discriminate E].
+    + apply IH in E; [exact E|exact Hs|]. do 2 apply hinv_ev. apply (await_input_hinv _ _ _ _ _ _ H EA).
+    + injection E as -> <- <-. pose proof H as (Hr & Wok & Hnf). pose proof (rinv_pinv r Hr) as Hinv.
+      split; [do 2 apply hinv_ev; apply (await_input_hinv _ _ _ _ _ _ H EA)|].
+      split; [apply (await_input_err_unlocked _ _ _ _ _ _ _ (pinv_lgood _ Hinv) Wok Hnf EA)|].
+      apply (await_input_aborted _ _ _ _ _ _ Hinv (world_ok_remaining w Wok) Hnf EA).
+  - destruct (poll_input maxc (io_fuel w (len (buffer (rsp r)))) (Some n) r w) as [[p r'] w'] eqn:EP.
+    pose proof (poll_input_hinv _ _ _ _ _ _ H EP) as H1.
+    destruct p as [[[c b]|k]| |]; (apply IH in E; [exact E|exact Hs|]); do 2 apply hinv_ev; exact H1.
+Qed.
+End Handler.
+
+(* the hypothesis [rlock r = false] is not needed: the read that reports the abort releases the lock itself *)
+Theorem handler_abort_source : handler_abort_source_stmt.
+Proof.
+  intros maxc f script r w r1 w1 Hs Hr Wok Hnf _ E.
+  destruct (run_handler_abort maxc f script r w r1 w1 Hs (conj Hr (conj Wok Hnf)) E) as ((A & B & C) & D & E' & F).
+  tauto.
+Qed.
